@@ -51,11 +51,9 @@ def main():
                 if p.startswith("mkdir ") or (p.startswith("cp ") and "seed_out" in p):
                     if p not in setup:
                         setup.append(p)
-                elif p.startswith("go test ") and "-run" in p or (p.startswith("go test ") and "./" in p and "core/..." not in p):
+                elif re.match(r"^((\w+=('[^']*'|\S+))\s+)*go (test|run) ", p) and "core/..." not in p and "./" in p:
                     if p not in tests:
                         tests.append(p)
-                elif p.startswith("go run ") and p not in tests:
-                    tests.append(p)
         res["setup"] = setup
         res["tests"] = tests[:3]
         if not tests:
